@@ -181,6 +181,9 @@ class Runner:
         }
         if cls["algo"] == "DQN":
             plan["policy"] = {"q": gen_q_table(rng, self.NS, self.comps[0])}
+            if rng.random() < 0.5:
+                # Q-values that depend on the policy state: greedy actions at s' differ between the pre-step and the successor state
+                plan["policy"]["qbias"] = [[0.0] * self.comps[0]] + [[rng.randint(-12, 12) / 4.0 for _ in range(self.comps[0])] for _ in range(2)]
             if cls.get("iid_probe"):
                 plan["policy"] = {"q": [[0.0] * self.comps[0] for _ in range(self.NS)]}  # epsilon = 1: uniform actions, state-independent
         else:
@@ -238,7 +241,8 @@ class Runner:
         env = set_time_limit(replace_inner(self.env0, inner), int(kn["time_limit"]))
         algo = eqx.tree_at(lambda a: a.gamma, self.algo0, jnp.array(kn["gamma"], dtype=float))
         if self.cls["algo"] == "DQN":
-            policy = eqx.tree_at(lambda p: p.q, self.policy0, jnp.asarray(plan["policy"]["q"], dtype=float))
+            A = self.comps[0]
+            policy = eqx.tree_at(lambda p: (p.q, p.qbias), self.policy0, (jnp.asarray(plan["policy"]["q"], dtype=float), jnp.asarray(plan["policy"].get("qbias", [[0.0] * A] * 3), dtype=float)))
         else:
             t = plan["policy"]
             fields = ["loc", "amp", "nact", "nlp", "theta"]
@@ -497,6 +501,7 @@ class Runner:
                         res.probes["td_true_successor_differs_from_stored"] += 1
                         s2_ = legal[0]
                 rows.append({"s": int(b["obs_ids"][idx]), "a": b["actions"][idx], "r": float(b["rewards"][idx]), "s2": s2_,
+                             "k": int(b["k"][idx]), "k2": int(b["k"][idx]) + 1,
                              "done": bool(b["dones"][idx]), "timeout": bool(b["timeouts"][idx]),
                              # TRUE termination of this transition as scheduled by the simulator (not what the collector stored)
                              "term_true": bool(self._term_table[s2_]) if 0 <= s2_ < len(self._term_table) else False})
@@ -507,16 +512,19 @@ class Runner:
             elif r["done"]:
                 E["E.batch_terminal_row"] += 1
         if cls["algo"] == "DQN":
-            if argmax_gap(old["q"], rows) < 1e-3:
+            qb = plan["policy"].get("qbias")
+            if argmax_gap(old["q"], rows, qb) < 1e-3:
                 res.probes["td_skipped_argmax_tie"] += 1
                 return
-            ref_q, ref_loss, targets = dqn_reference_step(old["q"], old["qt"], rows, gamma, self.sgd_lr)
+            ref_q, ref_loss, targets = dqn_reference_step(old["q"], old["qt"], rows, gamma, self.sgd_lr, qb)
+            if qb is not None:
+                res.events["E.q_depends_on_policy_state"] += 1
             got = new["q"]
             scale = max(1.0, float(np.max(np.abs(ref_q))))
             if not np.allclose(got, ref_q, rtol=0, atol=3e-5 * scale):
-                cause = self._dqn_cause(old, rows, gamma, got, scale)
+                cause = self._dqn_cause(old, rows, gamma, got, scale, qb)
                 stored_rows = [{k: v for k, v in r.items() if k != "term_true"} for r in rows]
-                if np.allclose(got, dqn_reference_step(old["q"], old["qt"], stored_rows, gamma, self.sgd_lr)[0], rtol=0, atol=3e-5 * scale):
+                if np.allclose(got, dqn_reference_step(old["q"], old["qt"], stored_rows, gamma, self.sgd_lr, qb)[0], rtol=0, atol=3e-5 * scale):
                     cause = ("dqn_no_bootstrap_on_term", "stored_timeout_flag_hides_a_true_termination") if any(r["term_true"] and r["timeout"] for r in rows) \
                         else ("dqn_bootstrap_through_timeout", "stored_flags_disagree_with_scheduled_events")
                 bad = np.argwhere(np.abs(got - ref_q) > 3e-5 * scale)[0]
@@ -580,18 +588,34 @@ class Runner:
             res.ok("C07", "actor_step_leaves_critics")
             res.ok("C07", "targets_not_trained")
 
-    def _dqn_cause(self, old, rows, gamma, got, scale):
+    def _dqn_cause(self, old, rows, gamma, got, scale, qbias=None):
         """Name a wrong DQN target rule by trying the usual suspects."""
-        q, qt = old["q"], old["qt"]
+        q0, qt0 = old["q"], old["qt"]
         lr = self.sgd_lr
+        qb = np.zeros((3, q0.shape[1])) if qbias is None else np.asarray(qbias, dtype=np.float64)
 
         def step(rule):
             B = len(rows)
-            out = q.copy()
+            out = q0.copy()
             for r in rows:
+                b2 = qb[min(r.get("k2", 0), 2)]
+                nonlocal_q[0], nonlocal_q[1] = {r["s2"]: q0[r["s2"]] + b2}, {r["s2"]: qt0[r["s2"]] + b2}
                 y = rule(r)
-                out[r["s"], int(r["a"])] -= lr * (q[r["s"], int(r["a"])] - y) / B
+                out[r["s"], int(r["a"])] -= lr * (q0[r["s"], int(r["a"])] + qb[min(r.get("k", 0), 2)][int(r["a"])] - y) / B
             return out
+
+        nonlocal_q = [None, None]
+
+        class _T:
+            def __init__(self, i):
+                self.i = i
+
+            def __getitem__(self, idx):
+                if isinstance(idx, tuple):
+                    return nonlocal_q[self.i][idx[0]][idx[1]]
+                return nonlocal_q[self.i][idx]
+
+        q, qt = _T(0), _T(1)
 
         def nt(r):
             return 0.0 if r.get("term_true", r["done"] and not r["timeout"]) else 1.0
